@@ -43,7 +43,7 @@ RULE = ('toy: molecule of 2-7 residues x 1-3 beads (<= 18 beads; residue numbers
         'branched/cyclic bead graph; pre-existing versioned bonds/angles) and 1-6 links, each seeded from a connected (sometimes '
         'disconnected) bead set of the molecule and then perturbed (order codes 0/+-n/>/>>/</<</*/**, Choice/NotDefinedOrNot/'
         'equality attributes, [edges], [non-edges], [patterns], [molmeta]+[features], effectors dist/angle/dihedral/dihphase with '
-        'format, versions, !removals, replace incl. atomname:null, derived more-specific later links); 50 % rendered as .ff text '
+        'format, versions, !removals (without parameters, with all parameters of the interaction they name, with a strict prefix of them or with the last one altered - the last two must not remove), replace incl. atomname:null, derived more-specific later links); 50 % rendered as .ff text '
         'and parsed with read_ff, 50 % built as Link objects.  non-trivial = some link has >= 2 placements AND some candidate '
         'assignment of some link is rejected by exactly one condition (classes decided:<condition>).  '
         'order-table: all ordered pairs of 12 order codes x residue numbers 1..6 (enumerated, both argument orders); non-trivial = '
